@@ -17,6 +17,7 @@ CONSTANTS
   AuthSetups <- AuthSetupsQuick
   Forms <- FormsDef
   AltForm <- AltFormDef
+  Scales <- ScalesDef
   Variant = "ok"
 INVARIANT HashInputOk
 INVARIANT HashedLength
